@@ -339,7 +339,7 @@ def check_recompute(ctx, fb):
         c = p.calls(r"HashMap::<K, V, S, A>::insert$")[0]
         key, val = c[2][1], c[2][2]
         hc = p.calls(r"hash_couple$")
-        dphi = [s_ for s_ in subterms(key) if s_[0] == "phi" and s_[3] == "depth"]
+        dphi = [s_ for s_ in subterms(key) if s_[0] == "phi" and s_[4] == F(P(1), "depth")]
         rng = p.calls(r"RangeInclusive::<Idx>::new$")
         it_item = None
         for cc in p.calls(r"RangeInclusive<A>>::next$"):
@@ -349,8 +349,8 @@ def check_recompute(ctx, fb):
         else:
             d = dphi[0]
             lo, hi = rng[0][2]
-            fphi = [s_ for s_ in subterms(lo) if s_[0] == "phi" and s_[3] == "first"]
-            lphi = [s_ for s_ in subterms(hi) if s_[0] == "phi" and s_[3] == "last"]
+            fphi = [s_ for s_ in subterms(lo) if s_[0] == "phi"]
+            lphi = [s_ for s_ in subterms(hi) if s_[0] == "phi"]
             if key != ("tuple", (("bin", "Sub", d, mk_const("usize", 1)), it_item)):
                 why = "parent stored at %s, specification (depth - 1, parent_index)" % sh(key, 100)
             elif not (len(hc) == 1 and val == ("call", hc[0][1], hc[0][2]) and hc[0][2][1] == d and hc[0][2][2] == ("bin", "Shl", it_item, mk_const("i32", 1))):
@@ -359,7 +359,7 @@ def check_recompute(ctx, fb):
                 why = "parents recomputed for %s ..= %s, specification (first >> 1) ..= (last >> 1): every parent of the changed range" % (sh(lo, 60), sh(hi, 60))
             else:
                 o = outer[0]
-                nf, nl, nd = carried_value(it, o, "first"), carried_value(it, o, "last"), carried_value(it, o, "depth")
+                nf, nl, nd = carried_of(o, fphi[0]), carried_of(o, lphi[0]), carried_of(o, d)
                 if nf != lo or nl != hi or nd != ("bin", "Sub", d, mk_const("usize", 1)):
                     why = "after a level the range becomes (%s, %s) at depth %s, specification (first>>1, last>>1, depth-1)" % (sh(nf, 40), sh(nl, 40), sh(nd, 40))
                 elif fphi[0][4] != P(2) or lphi[0][4] != ("bin", "Sub", ("bin", "Add", P(2), P(3)), mk_const("usize", 1)) or d[4] != F(P(1), "depth"):
@@ -533,10 +533,14 @@ def check_subtree_root(ctx, fb):
             z = [(a, v) for a, v in p.conds() if a[0] == "b" and a[1][:3] == ("bin", "Eq", P(2)) and cint(a[1][3]) == 0]
             d = [(a, v) for a, v in p.conds() if a[0] == "b" and a[1][:3] == ("bin", "Eq", P(2)) and is_depth(a[1][3])]
             if p.kind == "backedge":
-                for nm in ("idx", "nd"):
-                    v = carried_value(it, p, nm)
-                    if v is not None:
-                        carried.setdefault(nm, set()).add(v)
+                # the loop step, by role: the level counter (starts at self.depth) decreases by one, the node index (the other
+                # loop-carried variable) moves to its parent
+                for ph, v in loop_phis(p):
+                    if ph[4] == F(P(1), "depth"):
+                        carried.setdefault("level", set()).add(v == ("bin", "Sub", ph, mk_const("usize", 1)))
+                    elif isinstance(v, tuple) and v and v[0] != "phi":
+                        isp = (v[:2] == ("bin", "Sub") and cint(v[3]) == 1 and isinstance(v[2], tuple) and v[2][:2] == ("bin", "Shr") and cint(v[2][3]) == 1 and v[2][2] == ("bin", "Add", ph, mk_const("usize", 1)))
+                        carried.setdefault("node", set()).add(isp or (v[0] == "unwrap"))
                 continue
             if p.kind != "return":
                 continue
@@ -601,9 +605,8 @@ def check_subtree_root(ctx, fb):
             if not good and why is None:
                 why = "level n returns %s, specification the node (n, index >> (depth - n)) that covers leaf `index`" % sh(v, 160)
         if name == "full" and why is None and carried:
-            ph_ok = all(isinstance(v, tuple) and v[:2] == ("bin", "Sub") for v in carried.get("nd", [])) and len(carried.get("idx", [])) >= 1
-            if not ph_ok:
-                why = "loop-carried values: %s" % {k: [sh(x, 60) for x in v] for k, v in carried.items()}
+            if carried.get("level") != {True} or not carried.get("node") or False in carried.get("node"):
+                why = "the climb's step is not (node -> parent ((i+1)>>1)-1, level -> level - 1): %s" % carried
         if why is None and not (seen["root"] >= 1 and seen["leaf"] >= 1 and seen["node"] >= 1 and seen["err"] >= 2):
             why = "expected the five arms (two rejections, root, leaf, inner node); found %s" % seen
         ctx.check(why is None, "R06-5", "%s::get_subtree_root" % name, "bounds rejections; level 0 = root(); level depth = get(index); level n = node (n, index >> (depth - n))", why, loc(it))
